@@ -197,6 +197,47 @@ static void l5(void) {
 }
 
 
+/* L10: the formatter's allocator is a tracing allocator that reports every release through the logger (with the usual per-thread
+ * guard against reporting its own work).  The foreground channel destroys a line once it is written, so the report is logged
+ * from inside the channel's send: the call has to return and both lines reach the writer, the report after the line (added
+ * after a seeded change that destroyed the line while the channel's mutex was still held: the nested send blocks on it) */
+static int la_inside;
+static void *la_acquire(struct aws_allocator *a, size_t n) {
+    (void)a;
+    return aws_mem_acquire(A, n);
+}
+static void la_release(struct aws_allocator *a, void *p) {
+    (void)a;
+    if (!la_inside) {
+        la_inside = 1;
+        AWS_LOGF_INFO(AWS_LS_COMMON_GENERAL, "released a block");
+        la_inside = 0;
+    }
+    aws_mem_release(A, p);
+}
+static struct aws_allocator la_alloc = {.mem_acquire = la_acquire, .mem_release = la_release, .mem_realloc = NULL, .mem_calloc = NULL, .impl = NULL};
+static void l10(void) {
+    setup_common();
+    la_inside = 0;
+    struct aws_log_formatter_standard_options fo = {.date_format = AWS_DATE_FORMAT_ISO_8601};
+    if (aws_log_formatter_init_default(&fmt, &la_alloc, &fo)) vs_harness_error("formatter init");
+    if (aws_log_channel_init_foreground(&chan, A, &writer)) vs_harness_error("channel init");
+    if (aws_logger_init_from_external(&logger, A, &fmt, &chan, &writer, AWS_LL_INFO)) vs_harness_error("logger init");
+    aws_logger_set(&logger);
+    AWS_LOGF_INFO(AWS_LS_COMMON_GENERAL, "hello from %d", 0);
+    aws_logger_set(NULL);
+    aws_logger_clean_up(&logger);
+    aws_log_channel_clean_up(&chan);
+    cleaned = 1;
+    VS_CHECK(nseen == 2, "line-count", "foreground pipeline with a reporting allocator: writer saw %d lines, expected the line and the allocator's report", nseen);
+    if (nseen == 2) {
+        VS_CHECK(strstr(seen[0], " - hello from 0\n") != NULL, "lost-line", "first line is '%s'", v_show(seen[0], strlen(seen[0])));
+        VS_CHECK(strstr(seen[1], " - released a block\n") != NULL, "lost-line", "second line is '%s'", v_show(seen[1], strlen(seen[1])));
+    }
+    aws_log_formatter_clean_up(&fmt);
+    VS_CHECK(ga.live_blocks == 0, "leak", "%llu allocation(s) still live after logger clean-up", (unsigned long long)ga.live_blocks);
+}
+
 /* L6: the no-alloc logger (fixed 8 KiB line buffer, mutex around the fwrite only) used by two threads at once.
  * (added after a seeded change - the line buffer made static, i.e. shared - was missed: formatting happens outside
  * the logger's lock, so the buffer must be private to each call) */
@@ -396,6 +437,7 @@ int main(int argc, char **argv) {
         {.name = "L3-bg-send-then-cleanup", .run = l3, .bound_quick = 3, .bound_thorough = 4, .digest = dig},
         {.name = "L4-fg-two-senders", .run = l4, .bound_quick = 2, .bound_thorough = 3, .digest = dig},
         {.name = "L5-pipeline-logf", .run = l5, .bound_quick = 2, .bound_thorough = 3, .digest = dig},
+        {.name = "L10-allocator-reports-releases-through-the-logger", .run = l10, .bound_quick = 1, .bound_thorough = 2, .digest = dig},
         {.name = "L6-noalloc-two-threads", .run = l6, .bound_quick = 2, .bound_thorough = 4, .digest = dig},
         {.name = "L8-bg-two-senders-on-a-full-queue", .run = l8, .bound_quick = 1, .bound_thorough = 2, .digest = dig},
         {.name = "L9-bg-third-party-send-during-cleanup", .run = l9, .bound_quick = 2, .bound_thorough = 3, .digest = dig},
